@@ -24,7 +24,7 @@ def _(self, token):
 @contract('TokenStore.remove')
 def _(self, start, end):
     requires(AbsInv(self) and In(self, start) and In(self, end) and start.g_pos <= end.g_pos)
-    modifies('TokenStore.g_view', 'TokenStore.g_vlen', 'RawTokenModel.g_store', 'RawTokenModel.g_pos')
+    modifies('TokenStore.g_view@self', 'TokenStore.g_vlen@self', 'RawTokenModel.g_store', 'RawTokenModel.g_pos')
     ensures(self.g_vlen == old(self.g_vlen) - (old(end.g_pos) - old(start.g_pos) + 1))
     ensures(forall(lambda k: sel(self.g_view, k) == ite(k < old(start.g_pos), sel(old(self.g_view), k), sel(old(self.g_view), k + (old(end.g_pos) - old(start.g_pos) + 1)))))
     ensures(AbsInv(self))
@@ -86,7 +86,7 @@ def _(self, ref, tokens):
     requires(AbsInv(self) and (ref is None or In(self, ref)) and tokens != None)
     requires(forall(lambda k: implies(0 <= k and k < len(tokens), tokens[k] != None and tokens[k].g_store is None), tokens[k]))
     requires(forall(lambda j, k: implies(0 <= j and j < k and k < len(tokens), tokens[j] != tokens[k])))
-    modifies('TokenStore.g_view', 'TokenStore.g_vlen', 'RawTokenModel.g_store', 'RawTokenModel.g_pos')
+    modifies('TokenStore.g_view@self', 'TokenStore.g_vlen@self', 'RawTokenModel.g_store', 'RawTokenModel.g_pos')
     ensures(self.g_vlen == old(self.g_vlen) + len(tokens))
     ensures(forall(lambda k: sel(self.g_view, k) == ite(k < old(ite(ref is None, 0, ref.g_pos + 1)), sel(old(self.g_view), k),
                     ite(k < old(ite(ref is None, 0, ref.g_pos + 1)) + len(tokens), sel(elems(tokens), k - old(ite(ref is None, 0, ref.g_pos + 1))), sel(old(self.g_view), k - len(tokens))))))
@@ -109,7 +109,7 @@ def _(self, ref, tokens):
     requires(AbsInv(self) and (ref is None or In(self, ref)) and tokens != None)
     requires(forall(lambda k: implies(0 <= k and k < len(tokens), tokens[k] != None and tokens[k].g_store is None), tokens[k]))
     requires(forall(lambda j, k: implies(0 <= j and j < k and k < len(tokens), tokens[j] != tokens[k])))
-    modifies('TokenStore.g_view', 'TokenStore.g_vlen', 'RawTokenModel.g_store', 'RawTokenModel.g_pos')
+    modifies('TokenStore.g_view@self', 'TokenStore.g_vlen@self', 'RawTokenModel.g_store', 'RawTokenModel.g_pos')
     ensures(self.g_vlen == old(self.g_vlen) + len(tokens))
     ensures(forall(lambda k: sel(self.g_view, k) == ite(k < old(ite(ref is None, 0, ref.g_pos)), sel(old(self.g_view), k),
                     ite(k < old(ite(ref is None, 0, ref.g_pos)) + len(tokens), sel(elems(tokens), k - old(ite(ref is None, 0, ref.g_pos))), sel(old(self.g_view), k - len(tokens))))))
@@ -169,3 +169,41 @@ def _(node, repl):
     ensures(implies(node is not repl and old(repl.g_ts) != None, old(repl.g_ts).g_vlen == 0 and old(node.g_ts).g_vlen == old(node.g_ts.g_vlen) - (old(node.g_last.g_pos) + 1 - old(node.g_first.g_pos)) + old(repl.g_ts.g_vlen)
                     and forall(lambda k: implies(0 <= k and k < old(repl.g_ts.g_vlen), sel(old(node.g_ts).g_view, old(node.g_first.g_pos) + k) == sel(old(repl.g_ts.g_view), k)))))
     ensures(implies(node is not repl and isinstance(repl, RawTreeModel), repl.g_ts is old(node.g_ts)))
+
+# ---- token side of the raw repeated wrapper (C03, C05): layout invariant of a repeated field in its store and what _del_tokens removes
+@contract('Repeated.placeholder')
+def _(self):
+    modifies()
+    ensures(result is self.g_ph and result != None)
+
+@macro
+def RepInv(r):      # the placeholder, then the items in list order, each in the store, spans disjoint and ascending (separators lie in between)
+    return (r != None and r.items != None and r.g_ts != None and AbsInv(r.g_ts) and In(r.g_ts, r.g_ph)
+        and forall(lambda i: implies(0 <= i and i < len(r.items), r.items[i] != None and In(r.g_ts, r.items[i].g_first) and In(r.g_ts, r.items[i].g_last)
+                                     and r.items[i].g_first.g_pos <= r.items[i].g_last.g_pos and r.g_ph.g_pos < r.items[i].g_first.g_pos), r.items[i])
+        and forall(lambda i, j: implies(0 <= i and i < j and j < len(r.items), r.items[i].g_last.g_pos < r.items[j].g_first.g_pos)))
+
+@contract('RepeatedNodeWrapper._prev_last')
+def _(self, index):
+    requires(self != None and RepInv(self._repeated) and 0 <= index and index <= len(self._repeated.items))
+    modifies()
+    ensures(result is ite(index > 0, self._repeated.items[index - 1].g_last, self._repeated.g_ph))
+
+# removes the items start..stop-1 together with ONE adjacent group of separators: the one in front of them, or - when they are at the front of a longer list -
+# the one behind them; nothing of any other item, not the placeholder
+@contract('RepeatedNodeWrapper._del_tokens')
+def _(self, start, stop):
+    requires(self != None and RepInv(self._repeated) and 0 <= start and stop <= len(self._repeated.items))
+    modifies('TokenStore.g_view@self._repeated.g_ts', 'TokenStore.g_vlen@self._repeated.g_ts', 'RawTokenModel.g_store', 'RawTokenModel.g_pos',
+             'RepeatedNodeWrapper.g_da@self', 'RepeatedNodeWrapper.g_db@self')
+    ghost('g_da', ite(stop <= start, 0, ite(start == 0 and stop < len(self._repeated.items), old(self._repeated.items[0].g_first.g_pos),
+                  ite(start > 0, old(self._repeated.items[start - 1].g_last.g_pos) + 1, old(self._repeated.g_ph.g_pos) + 1))))
+    ghost('g_db', ite(stop <= start, 0, ite(start == 0 and stop < len(self._repeated.items), old(self._repeated.items[stop].g_first.g_pos) - 1, old(self._repeated.items[stop - 1].g_last.g_pos))))
+    ensures(implies(stop <= start, self._repeated.g_ts.g_view == old(self._repeated.g_ts.g_view) and self._repeated.g_ts.g_vlen == old(self._repeated.g_ts.g_vlen)))
+    ensures(implies(stop > start, self.g_da <= self.g_db and self._repeated.g_ts.g_vlen == old(self._repeated.g_ts.g_vlen) - (self.g_db - self.g_da + 1) and AbsInv(self._repeated.g_ts)
+                    and forall(lambda k: sel(self._repeated.g_ts.g_view, k) == ite(k < self.g_da, sel(old(self._repeated.g_ts.g_view), k), sel(old(self._repeated.g_ts.g_view), k + (self.g_db - self.g_da + 1))))))
+    # what is cut: every token of the deleted items, no token of a surviving item, not the placeholder
+    ensures(implies(stop > start, forall(lambda i: implies(start <= i and i < stop, self.g_da <= old(self._repeated.items[i].g_first.g_pos) and old(self._repeated.items[i].g_last.g_pos) <= self.g_db), self._repeated.items[i])))
+    ensures(implies(stop > start, forall(lambda i: implies(0 <= i and i < len(self._repeated.items) and (i < start or i >= stop),
+                                                          old(self._repeated.items[i].g_last.g_pos) < self.g_da or old(self._repeated.items[i].g_first.g_pos) > self.g_db), self._repeated.items[i])))
+    ensures(implies(stop > start, old(self._repeated.g_ph.g_pos) < self.g_da))
